@@ -1,7 +1,6 @@
 package rules
 
 import (
-	"go/token"
 	"strings"
 
 	"f2gcheck/internal/ir"
@@ -102,7 +101,7 @@ func c16(c *Ctx) {
 		},
 		Callees:  func(call ssa.CallInstruction) []*ssa.Function { return c.Callees(call) },
 		NoReturn: func(ins ssa.Instruction) bool { return c.noReturnCall(ins) },
-		GoAsCall: func(g *ssa.Go) bool { return joinedOnAllPaths(g) == nil },
+		GoAsCall: func(g *ssa.Go) bool { return ir.JoinedOnAllPaths(g) == nil },
 	}
 
 	runs := c.ImplMethods(PkgCtrl, "FanController", "Run")
@@ -241,7 +240,7 @@ func (c *Ctx) ruleSpawn(rule, entryName string, fn *ssa.Function, g *ssa.Go, res
 	}
 	key := entryName + "|go|" + c.FK(fn)
 	escaped := ""
-	if r := joinedOnAllPaths(g); r != nil {
+	if r := ir.JoinedOnAllPaths(g); r != nil {
 		escaped = c.P.Pos(r.Pos())
 	}
 	if escaped != "" {
@@ -251,23 +250,3 @@ func (c *Ctx) ruleSpawn(rule, entryName string, fn *ssa.Function, g *ssa.Go, res
 	}
 }
 
-// joinedOnAllPaths returns a return instruction the spawner can reach from the go statement without an
-// unconditional channel receive or WaitGroup.Wait (nil: joined on every path).
-func joinedOnAllPaths(g *ssa.Go) *ssa.Return {
-	isJoin := func(ins ssa.Instruction) bool {
-		switch x := ins.(type) {
-		case *ssa.UnOp:
-			return x.Op == token.ARROW
-		case *ssa.Call:
-			return ir.CallName(x) == "(*sync.WaitGroup).Wait"
-		}
-		return false
-	}
-	var escaped *ssa.Return
-	ir.Search{StopInstr: isJoin}.Reach([]ir.Point{ir.After(g)}, func(ins ssa.Instruction, _ *ssa.BasicBlock) {
-		if r, ok := ins.(*ssa.Return); ok && escaped == nil {
-			escaped = r
-		}
-	})
-	return escaped
-}
